@@ -48,14 +48,16 @@ theorem forIn_append_line {α ρ : Type} (l : α → Str) (xs : List α) (file :
 /-! ### the `enumerate(scffld.rows)` loop -/
 
 /-- the rows loop, with running position `p` and the `enumerate` counter starting at `i`: it writes the model's
-    column lists `agpCols name p i rows`, tab-joined, one line each, and leaves `p` at `p + rowsLength rows`. -/
-theorem forIn_rows {ρ : Type} (name : Str) (rows : List Row) (p i : Int) (file : Str)
-    (body : Int × Row → Int × Str → R (PyRt.Ctl (Int × Str) ρ))
-    (hbody : ∀ i row p file, body (i, row) (p, file) =
-      (agpRowCols name p i row).map (fun c => PyRt.Ctl.next (p + row.length, file ++ lineOfCols c))) :
-    PyRt.forIn (PyRt.enumerateFrom i rows) (p, file) body =
+    column lists `agpCols name p i rows`, tab-joined, one line each, and leaves `p` at `p + rowsLength rows`.
+    The loop state is any packing `mk p file` of the two carried variables (the translator emits them sorted by
+    name, `(file, p)`; nothing here depends on which order it is). -/
+theorem forIn_rows {σ ρ : Type} (mk : Int → Str → σ) (name : Str) (rows : List Row) (p i : Int) (file : Str)
+    (body : Int × Row → σ → R (PyRt.Ctl σ ρ))
+    (hbody : ∀ i row p file, body (i, row) (mk p file) =
+      (agpRowCols name p i row).map (fun c => PyRt.Ctl.next (mk (p + row.length) (file ++ lineOfCols c)))) :
+    PyRt.forIn (PyRt.enumerateFrom i rows) (mk p file) body =
       (agpCols name p i rows).map
-        (fun cs => PyRt.Done.fell (p + rowsLength rows, file ++ (cs.map lineOfCols).flatten)) := by
+        (fun cs => PyRt.Done.fell (mk (p + rowsLength rows) (file ++ (cs.map lineOfCols).flatten))) := by
   induction rows generalizing p i file with
   | nil => simp [PyRt.enumerateFrom, PyRt.forIn, agpCols, map_ok', rowsLength, sumInts]
   | cons row rest ih =>
@@ -69,14 +71,14 @@ theorem forIn_rows {ρ : Type} (name : Str) (rows : List Row) (p i : Int) (file 
       | ok cs => simp [map_ok', rowsLength_cons, List.append_assoc, Int.add_assoc]
 
 /-- the rows loop of one scaffold as the model's `formatAgpRows` -/
-theorem forIn_rows_model {ρ : Type} (name : Str) (rows : List Row) (file : Str)
-    (body : Int × Row → Int × Str → R (PyRt.Ctl (Int × Str) ρ))
-    (hbody : ∀ i row p file, body (i, row) (p, file) =
-      (agpRowCols name p i row).map (fun c => PyRt.Ctl.next (p + row.length, file ++ lineOfCols c))) :
-    PyRt.forIn (PyRt.enumerate rows) (0, file) body =
+theorem forIn_rows_model {σ ρ : Type} (mk : Int → Str → σ) (name : Str) (rows : List Row) (file : Str)
+    (body : Int × Row → σ → R (PyRt.Ctl σ ρ))
+    (hbody : ∀ i row p file, body (i, row) (mk p file) =
+      (agpRowCols name p i row).map (fun c => PyRt.Ctl.next (mk (p + row.length) (file ++ lineOfCols c)))) :
+    PyRt.forIn (PyRt.enumerate rows) (mk 0 file) body =
       (formatAgpRows name 0 0 rows).map
-        (fun ls => PyRt.Done.fell (0 + rowsLength rows, file ++ ls.flatten)) := by
-  rw [PyRt.enumerate, forIn_rows name rows 0 0 file body hbody, formatAgpRows_eq]
+        (fun ls => PyRt.Done.fell (mk (0 + rowsLength rows) (file ++ ls.flatten))) := by
+  rw [PyRt.enumerate, forIn_rows mk name rows 0 0 file body hbody, formatAgpRows_eq]
   cases agpCols name 0 0 rows <;> rfl
 
 /-! ### small facts used to discharge `hbody` -/
